@@ -29,7 +29,8 @@ CONSTANTS SLACK,   \* rows an accepted pipeline may hold back (batch coalescing)
           LIMITN,  \* the LIMIT of shape "limit"
           WIN      \* half-width of the join window of shape "shj"
 
-AcceptedShapes == {"filter", "limit", "agg", "window", "union", "merge", "shj", "shj_nofilter"}
+AcceptedShapes == {"filter", "limit", "agg", "agg2", "window", "wpart", "union", "merge", "shj", "shj_nofilter",
+                   "shj_left", "shj_right", "shj_full", "filter_limit"}
 Accepted(shape) == shape \in AcceptedShapes
 
 \* rows fed to <src, part> by the first k feed events
@@ -42,6 +43,8 @@ FedIn(feed, j, k, slot) == Cardinality({i \in (j + 1)..k : <<feed[i].src, feed[i
 LagPrefix(feed, k) ==
   LET ok == {j \in 0..k : \A slot \in Slots(feed) : FedIn(feed, j, k, slot) >= LAG} IN
   IF ok = {} THEN 0 ELSE CHOOSE j \in ok : \A j2 \in ok : j2 <= j
+
+MaxTsOf(P) == P[Len(P)][1].v
 
 TsKey == <<[i |-> 1, asc |-> TRUE, nf |-> FALSE]>>
 Ints(vals) == SelectSeq(vals, LAMBDA x : ~IsNull(x))
@@ -63,6 +66,24 @@ GroupRow(P, key) ==
   <<key, I(Len(m)), SumOrNull([i \in 1..Len(m) |-> m[i][3]])>>
 ClosedGroups(P) ==
   LET ks == GroupKeys(P) IN [g \in 1..(Len(ks) - 1) |-> GroupRow(P, ks[g])]
+
+(* ---- SELECT ts, k, count, sum(v) FROM s GROUP BY ts, k  (input ordered by ts only: partially ordered ---- *)
+(* ---- aggregation; every group of a ts value is closed by the first row with a larger ts)            ---- *)
+Group2Keys(P) == DedupSeq([i \in 1..Len(P) |-> <<P[i][1], P[i][2]>>])
+Group2Row(P, key) ==
+  LET m == SelectSeq(P, LAMBDA r : <<r[1], r[2]>> = key) IN
+  <<key[1], key[2], I(Len(m)), SumOrNull([i \in 1..Len(m) |-> m[i][3]])>>
+ClosedGroups2(P) ==
+  IF P = <<>> THEN <<>>
+  ELSE LET ks == SelectSeq(Group2Keys(P), LAMBDA key : key[1].v < MaxTsOf(P)) IN
+       [g \in 1..Len(ks) |-> Group2Row(P, ks[g])]
+
+(* ---- sum(v) OVER (PARTITION BY k ORDER BY ts ROWS BETWEEN 1 PRECEDING AND CURRENT ROW): fixed when the row is seen ---- *)
+PartPrev(P, i) == SelectSeq(SubSeq(P, 1, i - 1), LAMBDA r : r[2] = P[i][2])
+WPartRow(P, i) ==
+  LET prev == PartPrev(P, i) IN
+  <<P[i][1], P[i][2], P[i][3], SumOrNull(IF prev = <<>> THEN <<P[i][3]>> ELSE <<prev[Len(prev)][3], P[i][3]>>)>>
+WPartOut(P) == [i \in 1..Len(P) |-> WPartRow(P, i)]
 
 (* ---- sum(v) OVER (ORDER BY ts ROWS BETWEEN 1 PRECEDING AND 1 FOLLOWING): row i is fixed once row i+1 is seen ---- *)
 WindowRow(P, i) ==
@@ -102,10 +123,34 @@ Sem(shape, feed, k) ==
     [] shape = "merge"  -> [ordered |-> TRUE, correct |-> MergeCorrect(S0, S01), determined |-> MergeDetermined(S0, S01)]
     [] shape = "shj"    -> [ordered |-> FALSE, correct |-> JoinOut(S0, S1, TRUE), determined |-> JoinOut(S0, S1, TRUE)]
     [] shape = "shj_nofilter" -> [ordered |-> FALSE, correct |-> JoinOut(S0, S1, FALSE), determined |-> JoinOut(S0, S1, FALSE)]
+    [] shape = "agg2"   -> [ordered |-> FALSE, correct |-> ClosedGroups2(S0), determined |-> ClosedGroups2(S0)]
+    [] shape = "wpart"  -> [ordered |-> FALSE, correct |-> WPartOut(S0), determined |-> WPartOut(S0)]
+    [] shape = "filter_limit" -> [ordered |-> TRUE, correct |-> SubSeq(FilterOut(S0), 1, IF Len(FilterOut(S0)) < LIMITN THEN Len(FilterOut(S0)) ELSE LIMITN),
+                                  determined |-> SubSeq(FilterOut(S0), 1, IF Len(FilterOut(S0)) < LIMITN THEN Len(FilterOut(S0)) ELSE LIMITN)]
+    \* outer symmetric joins: the matched pairs are fixed as for the inner join; a NULL-padded row may only be emitted
+    \* for a row that never finds a partner (judged against the whole input of the run, see OuterSafe)
+    [] shape \in {"shj_left", "shj_right", "shj_full"} ->
+         [ordered |-> FALSE, correct |-> JoinOut(S0, S1, TRUE), determined |-> JoinOut(S0, S1, TRUE)]
+
+\* outer joins: emitted = matched pairs (both ts non-NULL) + padded rows; the pairs are within Correct(P); a padded row
+\* <<ts, NULL>> / <<NULL, ts>> belongs to a row of the padded side that has no partner in the WHOLE input of the run
+Pairs(out) == SelectSeq(out, LAMBDA r : ~IsNull(r[1]) /\ ~IsNull(r[2]))
+Padded(out) == SelectSeq(out, LAMBDA r : IsNull(r[1]) \/ IsNull(r[2]))
+OuterSafe(shape, out, semNow, semAll, allL, allR) ==
+  /\ IsSubBag(Pairs(out), semNow.correct)
+  /\ \A i \in 1..Len(Padded(out)) :
+        LET r == Padded(out)[i] IN
+        IF IsNull(r[2])
+          THEN /\ shape \in {"shj_left", "shj_full"}
+               /\ \E j \in 1..Len(allL) : allL[j][1] = r[1]
+               /\ ~\E j \in 1..Len(semAll.correct) : semAll.correct[j][1] = r[1]
+          ELSE /\ shape \in {"shj_right", "shj_full"}
+               /\ \E j \in 1..Len(allR) : allR[j][1] = r[2]
+               /\ ~\E j \in 1..Len(semAll.correct) : semAll.correct[j][2] = r[2]
 
 IsPrefixOf(a, b) == Len(a) <= Len(b) /\ a = SubSeq(b, 1, Len(a))
 Safe(sem, out) == IF sem.ordered THEN IsPrefixOf(out, sem.correct) ELSE IsSubBag(out, sem.correct)
 Live(semLagged, out) == Len(out) + SLACK >= Len(semLagged.determined)
 \* a reached LIMIT ends the query although the input continues; nothing else ends
-EndRule(shape, out, ended) == IF shape = "limit" THEN (ended <=> Len(out) = LIMITN) ELSE ~ended
+EndRule(shape, out, ended) == IF shape \in {"limit", "filter_limit"} THEN (ended <=> Len(out) = LIMITN) ELSE ~ended
 =============================================================================
